@@ -1015,7 +1015,20 @@ func (s *MutableState) TransferFromCommon(
 		}
 
 		// Escrow commission.
-		if com != nil && !com.IsZero() {
+		switch {
+		case com == nil || com.IsZero():
+			// No commission.
+		case !to.Escrow.Active.TotalShares.IsZero() && to.Escrow.Active.Balance.IsZero():
+			// The escrow pool has shares but (still) no balance, as it has lost everything through
+			// slashing, so no new shares can be created. Leave the commission in the general balance.
+			if !ctx.IsCheckOnly() {
+				ctx.EmitEvent(abciAPI.NewEventBuilder(AppName).TypedAttribute(&staking.TransferEvent{
+					From:   staking.CommonPoolAddress,
+					To:     toAddr,
+					Amount: *com,
+				}))
+			}
+		default:
 			var delegation *staking.Delegation
 			delegation, err = s.Delegation(ctx, toAddr, toAddr)
 			if err != nil {
